@@ -181,7 +181,7 @@ func checkParameterMergeTotal(r *Run) {
 					return found
 				}
 				bad := false
-				for _, l := range pathConditions(rs.Body, assign) {
+				for _, l := range controlConds(rs.Body, assign) {
 					if testsValue(l.Expr) {
 						bad = true
 					}
@@ -267,7 +267,7 @@ func checkBoundFlagRole(r *Run) {
 					return true
 				}
 				st := site{fd: fd, call: call, side: side, column: column}
-				for _, l := range pathConditions(fd.Body, call) {
+				for _, l := range controlConds(fd.Body, call) {
 					if l.Neg {
 						continue
 					}
